@@ -5,6 +5,7 @@ import (
 	"flag"
 	"math"
 	"os"
+	"reflect"
 
 	"github.com/zalf-rpm/Hermes2Go/hermes"
 )
@@ -50,7 +51,7 @@ type dayAcc struct {
 	wdt                        float64
 	excluded                   bool
 	grw0                       float64
-	maxCap                     [21]float64
+	wgStart                    [21]float64
 }
 
 func storage(g *hermes.GlobalVarsMain, which int) float64 {
@@ -73,6 +74,7 @@ func traceLine(work, line string, lineNo int, r *rng, waterEvery int) {
 		switch stage {
 		case "evatra":
 			day = dayAcc{zeit: zeit, s0: storage(g, 0), fluss0: g.FLUSS0, grw0: g.GRW}
+			day.wgStart = g.WG[0]
 			for _, m := range g.MESS {
 				if m == zeit && m != 0 {
 					day.excluded = true
@@ -110,6 +112,27 @@ func traceLine(work, line string, lineNo int, r *rng, waterEvery int) {
 			scale := math.Abs(day.s0) + math.Abs(day.fluss0) + math.Abs(day.sumQ) + math.Abs(day.sumTP)
 			emit(jobj{"k": "day", "line": lineNo, "zeit": zeit, "steps": day.steps, "wdt": hx(day.wdt), "s0": hx(day.s0), "s1": hx(s1),
 				"fluss0": hx(day.fluss0), "tp": hx(day.sumTP), "q": hx(day.sumQ), "qd": hx(day.sumQD), "res": res, "excluded": day.excluded})
+			// C06: bounds and finiteness at the end of the day
+			maxCaps := 0.0
+			for _, c := range g.CAPS {
+				maxCaps = math.Max(maxCaps, c)
+			}
+			for i := 0; i < g.N; i++ {
+				wg := g.WG[1][i]
+				if !finite(wg) {
+					oracleFail("wg-not-finite line=%d zeit=%d layer=%d value=%v", lineNo, zeit, i+1, wg)
+					continue
+				}
+				if wg > g.W[i]+maxCaps+1e-12 {
+					oracleFail("wg-above-fc line=%d zeit=%d layer=%d wg=%v fc=%v maxcaps=%v", lineNo, zeit, i+1, wg, g.W[i], maxCaps)
+				}
+				if !day.excluded && day.wgStart[i] >= g.WMIN[i]/3 && wg < g.WMIN[i]/3-1e-12 {
+					oracleFail("wg-below-dryness-limit line=%d zeit=%d layer=%d start=%v end=%v limit=%v steps=%d", lineNo, zeit, i+1, day.wgStart[i], wg, g.WMIN[i]/3, day.steps)
+				}
+			}
+			if p := firstNonFinite(reflect.ValueOf(g).Elem(), "g", 0); p != "" {
+				oracleFail("state-not-finite line=%d zeit=%d field=%s", lineNo, zeit, p)
+			}
 			if !day.excluded {
 				if !(math.Abs(res) <= 1e-9*(1+scale)) {
 					oracleFail("day-water-balance line=%d zeit=%d steps=%d wdt=%v fluss0=%v residual=%g", lineNo, zeit, day.steps, day.wdt, day.fluss0, res)
